@@ -4,7 +4,7 @@
    batch behaves like SOME sequential order of [handle_ad] ([conc_ads_check]: linearizability against the
    model, checked on the real node's table and relays).  A handler that decides under one critical section
    and applies under another is [handle_split]. *)
-From Receptor Require Export Model.Ads.
+From Receptor Require Export Model.Ads Base.Perms.
 Open Scope N_scope.
 
 (* the unconditional effect of an accepted message *)
@@ -24,15 +24,6 @@ Definition decide (st : astate) (a : ad) : bool :=
 (* decision taken on [seen] (what the tables were when the thread looked), effect on the current state *)
 Definition handle_split (seen st : astate) (a : ad) (recv : node) : astate * list (node * ad) :=
   if decide seen a then apply_ad st a recv else (st, []).
-
-(* ---------- permutations ---------- *)
-Fixpoint insert_all {A} (x : A) (l : list A) : list (list A) :=
-  match l with
-  | [] => [[x]]
-  | y :: r => (x :: l) :: map (cons y) (insert_all x r)
-  end.
-Fixpoint perms {A} (l : list A) : list (list A) :=
-  match l with [] => [[]] | x :: r => flat_map (insert_all x) (perms r) end.
 
 (* ---------- correspondence ---------- *)
 Fixpoint run_collect (st : astate) (l : list (ad * node)) : astate * list (node * ad) :=
